@@ -61,6 +61,7 @@ where
       let s_next = s.clone();
       let s_error = s.clone();
       let s_complete = s.clone();
+      let s_check = s.clone();
 
       *sbsc.write().unwrap() = Some(
         utils::ready_set_go(
@@ -90,6 +91,13 @@ where
           },
         ),
       );
+      if !s_check.is_subscribed() {
+        // the subscriber ended during the replay (stored terminal, or it left by itself):
+        // do not leave its forwarding observer registered in the inner subject
+        if let Some(sbsc) = &*sbsc.read().unwrap() {
+          sbsc.unsubscribe();
+        }
+      }
     })
   }
 
